@@ -20,6 +20,11 @@ theorem getN_mod_8 (s X : Nat) : getN s 8 X % 256 = getN s 8 X := Nat.mod_eq_of_
 theorem getN_mod_16 (s X : Nat) : getN s 16 X % 65536 = getN s 16 X := Nat.mod_eq_of_lt (getN_lt s 16 X)
 theorem getN_mod_32 (s X : Nat) : getN s 32 X % 4294967296 = getN s 32 X := Nat.mod_eq_of_lt (getN_lt s 32 X)
 
+-- LLC U format modifier bits: the arithmetic of the two groups, whole domain by evaluation
+theorem llc_mod_hi_arith : ∀ v, v < 4 → ∀ h, h < 4 → ∀ l, l < 8 →
+    (((v <<< 3) ||| (((h <<< 3) + l) &&& 7)) >>> 3) % 4 = v ∧ (((v <<< 3) ||| (((h <<< 3) + l) &&& 7)) &&& 7) % 8 = l ∧ ((h <<< 3) + l) >>> 3 = h := by decide
+theorem llc_mod_lo_arith : ∀ v, v < 8 → ∀ h, h < 4 → ∀ l, l < 8 →
+    ((((((h <<< 3) + l) &&& 0x18) ||| v)) >>> 3) % 4 = h ∧ ((((((h <<< 3) + l) &&& 0x18) ||| v)) &&& 7) % 8 = v ∧ ((h <<< 3) + l) &&& 7 = l := by decide
 -- byte-local bit set / clear (LLC I/G and C/R bits): the whole byte domain by evaluation
 set_option maxRecDepth 100000 in
 theorem or_one_word : ∀ W, W < 256 → W ||| 0x01 = putN 0 1 1 W := by decide
@@ -657,11 +662,48 @@ theorem BootP_chaddr_mac_lens : (⟨"BootP", "chaddr_mac", 1536, 128, 1208925819
     simp only [Nat.reducePow] at this ⊢
     omega
 
+
+/-! ### LLC U format: the two modifier bit groups (bits 2-3 and 5-7 of the control octet) through the one public pair -/
+theorem LLC_modifier_hi_lens : (⟨"LLCUnnumbered", "modifier_function_hi", 18, 2, 1, LLC_get_modifier_hi 3 LLCUnnumbered_mod_func1 LLCUnnumbered_mod_func2,
+    LLC_set_modifier_hi 3 LLCUnnumbered_mod_func1 LLCUnnumbered_mod_func2⟩ : CustomAcc).IsLens := by
+  intro v X hv
+  simp only [Nat.mul_one, Nat.div_one, Nat.reducePow] at hv ⊢
+  have hh := getN_lt 18 2 X
+  have hl := getN_lt 21 3 X
+  simp only [Nat.reducePow] at hh hl
+  obtain ⟨a1, a2, a3⟩ := llc_mod_hi_arith v hv _ hh _ hl
+  constructor
+  · simp (config := {decide := true}) only [LLC_set_modifier_hi, LLC_set_modifier, LLC_get_modifier, LLCUnnumbered_mod_func1, LLCUnnumbered_mod_func2,
+      memGet, memSet, ite_true, ite_false, Nat.reduceMul, Nat.reduceAdd]
+    rw [putN_congr 18 2 _ v X (by simp only [Nat.reducePow]; rw [a1]; exact (Nat.mod_eq_of_lt hv).symm),
+      putN_congr 21 3 _ (getN 21 3 X) _ (by simp only [Nat.reducePow]; rw [a2]; exact (Nat.mod_eq_of_lt hl).symm),
+      ← getN_putN_disjoint 18 2 21 3 v X (by decide), putN_getN]
+  · simp (config := {decide := true}) only [LLC_get_modifier_hi, LLC_get_modifier, LLCUnnumbered_mod_func1, LLCUnnumbered_mod_func2,
+      memGet, ite_true, Nat.reduceMul, Nat.reduceAdd]
+    exact a3
+
+theorem LLC_modifier_lo_lens : (⟨"LLCUnnumbered", "modifier_function_lo", 21, 3, 1, LLC_get_modifier_lo 3 LLCUnnumbered_mod_func1 LLCUnnumbered_mod_func2,
+    LLC_set_modifier_lo 3 LLCUnnumbered_mod_func1 LLCUnnumbered_mod_func2⟩ : CustomAcc).IsLens := by
+  intro v X hv
+  simp only [Nat.mul_one, Nat.div_one, Nat.reducePow] at hv ⊢
+  have hh := getN_lt 18 2 X
+  have hl := getN_lt 21 3 X
+  simp only [Nat.reducePow] at hh hl
+  obtain ⟨a1, a2, a3⟩ := llc_mod_lo_arith v hv _ hh _ hl
+  constructor
+  · simp (config := {decide := true}) only [LLC_set_modifier_lo, LLC_set_modifier, LLC_get_modifier, LLCUnnumbered_mod_func1, LLCUnnumbered_mod_func2,
+      memGet, memSet, ite_true, ite_false, Nat.reduceMul, Nat.reduceAdd]
+    rw [putN_congr 18 2 _ (getN 18 2 X) X (by simp only [Nat.reducePow]; rw [a1]; exact (Nat.mod_eq_of_lt hh).symm),
+      putN_congr 21 3 _ v _ (by simp only [Nat.reducePow]; rw [a2]; exact (Nat.mod_eq_of_lt hv).symm), putN_getN]
+  · simp (config := {decide := true}) only [LLC_get_modifier_lo, LLC_get_modifier, LLCUnnumbered_mod_func1, LLCUnnumbered_mod_func2,
+      memGet, ite_true, Nat.reduceMul, Nat.reduceAdd]
+    exact a3
+
 /-- every hand-written model in `Custom.table` is the lens at its declared position -/
 theorem table_sound : ∀ a ∈ table, a.IsLens := by
   intro a ha
   simp only [table, List.mem_cons, List.not_mem_nil, or_false] at ha
-  rcases ha with rfl | rfl | rfl | rfl | rfl | rfl | rfl | rfl | rfl | rfl | rfl | rfl | rfl | rfl | rfl | rfl | rfl | rfl | rfl | rfl | rfl | rfl | rfl | rfl | rfl | rfl | rfl | rfl | rfl | rfl | rfl | rfl | rfl | rfl | rfl | rfl | rfl | rfl | rfl | rfl | rfl | rfl | rfl | rfl | rfl | rfl | rfl | rfl | rfl | rfl | rfl | rfl | rfl | rfl | rfl | rfl | rfl | rfl | rfl | rfl | rfl | rfl | rfl | rfl | rfl | rfl | rfl | rfl | rfl | rfl | rfl | rfl | rfl | rfl | rfl | rfl | rfl | rfl | rfl | rfl
+  rcases ha with rfl | rfl | rfl | rfl | rfl | rfl | rfl | rfl | rfl | rfl | rfl | rfl | rfl | rfl | rfl | rfl | rfl | rfl | rfl | rfl | rfl | rfl | rfl | rfl | rfl | rfl | rfl | rfl | rfl | rfl | rfl | rfl | rfl | rfl | rfl | rfl | rfl | rfl | rfl | rfl | rfl | rfl | rfl | rfl | rfl | rfl | rfl | rfl | rfl | rfl | rfl | rfl | rfl | rfl | rfl | rfl | rfl | rfl | rfl | rfl | rfl | rfl | rfl | rfl | rfl | rfl | rfl | rfl | rfl | rfl | rfl | rfl | rfl | rfl | rfl | rfl | rfl | rfl | rfl | rfl | rfl | rfl
   · exact IP_flags_lens
   · exact IP_fragment_offset_lens
   · exact IPv6_traffic_class_lens
@@ -737,6 +779,8 @@ theorem table_sound : ∀ a ∈ table, a.IsLens := by
   · exact LE_member_lens 3 0 1 24 _ _ _ _ (by decide) (by intro X; simp (config := {decide := true}) only [LLC_get_poll_final, LLC_set_poll_final, LLCSupervisory_poll_final_bit, ite_true, ite_false, or_true, true_or]) (by intro v X; simp (config := {decide := true}) only [LLC_get_poll_final, LLC_set_poll_final, LLCSupervisory_poll_final_bit, ite_true, ite_false])
   · exact LE_member_lens 3 1 7 25 _ _ _ _ (by decide) (by intro X; simp (config := {decide := true}) only [LLC_get_recv_seq, LLC_set_recv_seq, LLCSupervisory_recv_seq_num, ite_true, ite_false, or_true, true_or]) (by intro v X; simp (config := {decide := true}) only [LLC_get_recv_seq, LLC_set_recv_seq, LLCSupervisory_recv_seq_num, ite_true, ite_false])
   · exact LE_member_lens 2 4 1 20 _ _ _ _ (by decide) (by intro X; simp (config := {decide := true}) only [LLC_get_poll_final, LLC_set_poll_final, LLCUnnumbered_poll_final_bit, ite_true, ite_false, or_true, true_or]) (by intro v X; simp (config := {decide := true}) only [LLC_get_poll_final, LLC_set_poll_final, LLCUnnumbered_poll_final_bit, ite_true, ite_false])
+  · exact LLC_modifier_hi_lens
+  · exact LLC_modifier_lo_lens
   · exact ICMPExt_version_lens
   · exact ICMPExt_reserved_lens
   · exact BootP_chaddr_mac_lens
